@@ -197,6 +197,8 @@ def cosim_one(args):
     policy = refbroker.Policy()
     if sc['kind'] == 'broker-close':
         policy.publish_fate = lambda broker, ch, m: None
+    if sc.get('crossing'):
+        policy.crossing_close = True
     ref = {}
 
     def scenario(ctx):
@@ -267,6 +269,7 @@ def cosim_one(args):
                 closer()
             amqpstorm.channel.time.sleep(0.05)
             out['closes'] = [(f.reply_code, f.reply_text) for f in broker.frames_in('Channel.Close', cid)]
+            out['closeoks_for_broker_close'] = len(broker.frames_in('Channel.CloseOk', cid))
             out['cancels'] = [f.consumer_tag for f in broker.frames_in('Basic.Cancel', cid)]
             out['state'] = (ch.current_state, len(ch.consumer_tags), len(ch._inbound))
         elif sc['kind'] == 'conn-close':
@@ -363,6 +366,9 @@ def check(rep):
                   'code': rng.choice([200, 320])}
             if rng.random() < 0.3:
                 sc.update({'via': rng.choice(['with', 'with-raise']), 'code': 200})
+            if sc['closers'] == 1 and rng.random() < 0.35:
+                sc['crossing'] = True
+                sc['again'] = False
         else:
             sc = {'kind': k, 'closers': [rng.choice([1, 1, 2]) for _ in range(rng.randint(1, 3))]}
             if rng.random() < 0.25:
@@ -410,6 +416,10 @@ def check(rep):
                 rep.violation('C11/consumers-not-cancelled', 'cancelled %r of %d consumers' % (r['cancels'], sc['consumers']), replay)
             if r['state'] != (0, 0, 0):
                 rep.violation('C11/not-closed-after-close', 'after close(): %r' % (r['state'],), replay)
+            if sc.get('crossing') and len(r['closes']) == 1 and r.get('closeoks_for_broker_close') != 1:
+                rep.violation('C11/crossing-close-not-answered', 'the broker closed the channel (404) while the application\'s close() was '
+                              'waiting for its CloseOk, the connection was up: %r Channel.CloseOk sent instead of exactly 1'
+                              % (r.get('closeoks_for_broker_close'),), replay)
         elif k == 'conn-close' and 'conn_closes' in r:
             if sc.get('pending'):
                 lines.append('c11.connerr %s 3 1' % sc['pending'])
